@@ -78,7 +78,13 @@ TraceEnd ==
   /\ (mode = "ok" => TLCSet(3, TLCGet(3) + 1))
   /\ l' = l + 1
 
-TraceNext == TraceReset \/ TraceWrite \/ TraceEnd
+\* Close after the last Write (C07): the directory is empty, a later request returns with a non-200 status
+TraceClosed ==
+  /\ l <= Len(Trace) /\ Trace[l].ev = "closed"
+  /\ UNCHANGED <<cfg, mon, mm, mode>>
+  /\ l' = l + 1
+
+TraceNext == TraceReset \/ TraceWrite \/ TraceEnd \/ TraceClosed
 TraceSpec == TraceInit /\ [][TraceNext]_tvars
 
 Post == PrintT(<<"TRACES", TLCGet(2)>>) /\ PrintT(<<"CONFORMING", TLCGet(3)>>)
@@ -91,4 +97,6 @@ C05_URIs             == mon.f.c05
 C18_Retention        == mon.f.c18
 C19_RegularParts     == mon.f.c19
 C16_Multivariant     == mon.f.c16
+C07_AfterClose       == (l > 1 /\ l - 1 <= Len(Trace) /\ Trace[l - 1].ev = "closed") =>
+                           (Trace[l - 1].files \in {-1, 0} /\ Trace[l - 1].plst # 200)
 =============================================================================
